@@ -194,10 +194,16 @@ def check_pass(mir, V, entry, err_path, res):
             n_sites += 1
             if cd is None:
                 cd = control_deps_transitive(fn)
+            loops_ = natural_loops(fn)
             for (a, s_) in sorted(cd.get(c.bb, ())):
                 t = fn.blocks[a]["term"]
                 if t["k"] != "switch":
                     continue
+                # a test inside a loop that the call is not part of does not decide whether the call happens: the call
+                # comes after the loop whatever the loop's elements were (its dependence on such a test is only the
+                # loop's own exit)
+                if any(a in body_ and c.bb not in body_ and all(x_ in body_ for x_ in fn.succs(a) if not fn.blocks[x_]["cleanup"] and fn.blocks[x_]["term"]["k"] != "unreachable") for (h_, body_) in loops_):
+                    continue  # (a test with a branch that leaves the loop - an early return - is still judged)
                 dexpr = canon(ex.operand(t["discr"]))
                 key = "guard|%s->%s" % (fn.path.rsplit("::", 1)[-1], mir.fns[c.rkey].path.rsplit("::", 1)[-1])
                 if dexpr.startswith("discr(Try@Result::branch("):
@@ -638,14 +644,11 @@ def check_truth(mir, stage, err_path, res):
                     m = re.match(r"^Iterator::collect\(Iterator::map\(slice::iter\((.*)\), .*closure.*\)\)$", vec)
                     cd = control_deps_transitive(fn)
                     tested = None
-                    for (a, succ) in cd.get(i, ()):
-                        t = fn.blocks[a]["term"]
-                        if t["k"] == "switch":
-                            ce = canon(ex.operand(t["discr"]))
-                            mm = re.match(r"^\((Vec|slice)::len\((.*)\) (Gt|Ge|Ne) const\(1_usize\)\)$", ce)
-                            if mm:
-                                tested = mm.group(2)
-                    if not (m and tested and m.group(1) == tested):
+                    for coll_, lens_ in length_guards(fn, ex, cd, i).items():
+                        if lens_ == {2, 3, 4}:
+                            tested = coll_
+                    listed = re.sub(r"^Vec::as_slice\((.*)\)$", r"\1", m.group(1)) if m else None
+                    if not (m and tested and listed == tested):
                         res.violate(rule, key + "|positions", where, "the position list must be mapped from the very collection whose length was tested (> 1): list from `%s`, test on `%s`" % (m.group(1) if m else vec, tested))
                 elif v in ("SymbolOrTerminalEnumNameFirstLetterNotUppercase", "FieldFirstLetterNotLowercase"):
                     (pos,) = ops
@@ -669,6 +672,40 @@ def check_truth(mir, stage, err_path, res):
     res.floor("error construction sites with payload examined", n, 10)
 
 
+def length_guards(fn, ex, cd, block):
+    """the tests on the length of a collection that guard `block`, evaluated: returns {collection text: set of lengths in
+    0..4 compatible with every guard taken}.  Understands is_empty, len() <op> k, PtrMetadata (slice patterns) and their
+    negations, whichever way the branch is spelled."""
+    out = {}
+    ops = {"Eq": lambda a, b: a == b, "Ne": lambda a, b: a != b, "Gt": lambda a, b: a > b, "Ge": lambda a, b: a >= b, "Lt": lambda a, b: a < b, "Le": lambda a, b: a <= b}
+    for (a, succ) in cd.get(block, ()):
+        t = fn.blocks[a]["term"]
+        if t["k"] != "switch":
+            continue
+        ce = canon(ex.operand(t["discr"]))
+        neg = False
+        while ce.startswith("Not(") and ce.endswith(")"):
+            ce = ce[4:-1]
+            neg = not neg
+        zero_targets = [bb for (val, bb) in t["targets"] if val == 0]
+        taken_true = succ not in zero_targets
+        if neg:
+            taken_true = not taken_true
+        m1 = re.match(r"^(?:Vec|slice)::is_empty\((.*)\)$", ce)
+        m2 = re.match(r"^\((?:(?:Vec|slice)::len|PtrMetadata)\((.*)\) (Eq|Ne|Gt|Ge|Lt|Le) const\((\d+)_usize\)\)$", ce)
+        if m1:
+            coll, pred = m1.group(1), (lambda n: n == 0)
+        elif m2:
+            k_ = int(m2.group(3))
+            coll, pred = m2.group(1), (lambda n, o=m2.group(2), k=k_: ops[o](n, k))
+        else:
+            continue
+        coll = re.sub(r"^Vec::as_slice\((.*)\)$", r"\1", coll)
+        cur = out.setdefault(coll, set(range(5)))
+        out[coll] = {n for n in cur if pred(n) == taken_true}
+    return out
+
+
 def check_count(mir, stage, err_path, res):
     rule = "R-C10-count"
     want = {"NoStartSymbol": "is_empty", "NoTerminalEnum": "is_empty", "MultipleStartSymbols": "gt1", "MultipleTerminalEnums": "gt1"}
@@ -687,28 +724,18 @@ def check_count(mir, stage, err_path, res):
                     if cd is None:
                         cd = control_deps_transitive(fn)
                     good = False
-                    desc = []
-                    for (a, succ) in cd.get(i, ()):
-                        t = fn.blocks[a]["term"]
-                        if t["k"] != "switch":
-                            continue
-                        ce = canon(ex.operand(t["discr"]))
-                        desc.append(ce)
-                        m1 = re.match(r"^(Vec|slice)::is_empty\((.*)\)$", ce)
-                        m2 = re.match(r"^\((Vec|slice)::len\((.*)\) Gt const\(1_usize\)\)$", ce)
-                        m = m1 if want[v] == "is_empty" else m2
-                        if m:
-                            coll = m.group(2)
-                            mm = re.match(r"^Iterator::collect\(Iterator::filter_map\(slice::iter\(param1\.items\), (.*)\)\)$", coll)
-                            if mm:
-                                # the selector must pick exactly the right item kind
-                                for c in fn.calls():
-                                    if (c.rpath or "").endswith("::filter_map"):
-                                        sel = selector_variants(mir, fn, c, ex)
-                                        if sel == {kind_of[v]}:
-                                            # taken branch: the error must be on the `true` side
-                                            tt = [bb for (val, bb) in t["targets"] if val == 0]
-                                            good = succ not in tt
+                    lg = length_guards(fn, ex, cd, i)
+                    desc = ["%s in %s" % (k_[:90], sorted(v_)) for k_, v_ in lg.items()]
+                    for coll, lens in lg.items():
+                        wanted = {0} if want[v] == "is_empty" else {2, 3, 4}
+                        mm = re.match(r"^Iterator::collect\(Iterator::filter_map\(slice::iter\(param1\.items\), (.*)\)\)$", coll)
+                        if lens == wanted and mm:
+                            # the selector must pick exactly the right item kind
+                            for c in fn.calls():
+                                if (c.rpath or "").endswith("::filter_map"):
+                                    sel = selector_variants(mir, fn, c, ex)
+                                    if sel == {kind_of[v]}:
+                                        good = True
                     res.inst(rule, "%s|%s" % (fn.path.rsplit("::", 1)[-1], v), fn.where, True, "guarded by %s" % desc)
                     if not good:
                         res.violate(rule, "%s|%s" % (fn.path.rsplit("::", 1)[-1], v), fn.where, "%s must be raised exactly when the collection of all %s items %s; guards found: %s" % (v, kind_of[v], "is empty" if want[v] == "is_empty" else "has more than one element", desc))
